@@ -17,6 +17,15 @@ Decided:
          ``mtime <= cached_modify_time`` and before any open(); on the success path response, content_type,
          content_length (from getsize) and last_modified (from get_file_mtime) are all assigned before return;
   R14.e  StaticApplication registers '/<path*>' bound to get_file_response, which joins segments with '/'.
+  R14.f  the value assigned to last_modified and the value compared with cached_modify_time, followed back to where they
+         are constructed (reaching definitions, calls into functions of the package, module constants): a datetime built in
+         the UTC time base (utcfromtimestamp, fromtimestamp(ts, <UTC>), datetime(*gmtime(ts)[:6]), epoch + timedelta) from
+         the modification timestamp (getmtime / stat().st_mtime) of the served path, and -- for the comparison -- in whole
+         seconds.  A local-time construction (fromtimestamp without tz, localtime, a naive UTC value pushed through
+         astimezone / timestamp / mktime, local wall-clock time labelled UTC), the clock or another file time is a
+         violation: werkzeug reads naive datetimes as UTC, so such a value is off by the server's UTC offset.  Decided over
+         an abstract domain of *kinds* of time value (epoch / struct_time / naive-UTC / naive-local / aware), never
+         over instants; any other construction is an ANALYSIS-ERROR.
 Declined: byte equality of bodies, MIME guessing, date formatting.
 
 Constructs are located by role, not by spelling.  The loader dissolves private helpers into their callers; on top of
@@ -24,7 +33,7 @@ that the rules follow: tests held in a single-assignment local (``flag = X.start
 also wrapped in ``bool()``) and boolean combinations of the refusals with ``limit_root`` (_edge_facts); several names for
 the one normalised path; plain copies of locals and tuple (un)packing when asking where a header value / the wrapped
 file / the compared mtime comes from (_sources: all bindings, flow-insensitive); ``except <module-level tuple of
-classes>`` (_caught_names); ``exc = Forbidden(..); raise exc``; module-level constants for the route pattern, the
+classes>`` (_caught_names, also ``(A,) + _OTHERS``); ``exc = Forbidden(..); raise exc``; module-level constants for the route pattern, the
 status code and ``is_breaking``; ``mtime <= t`` written as ``t >= mtime`` or as the else-branch of ``mtime > t``; the
 search loop written with a guard + continue or as ``next((p for .. if isfile(p)), None)``; keyword or positional
 arguments.  A value or test that moved into a function of the package which is *not* dissolved (public name) is an
@@ -136,6 +145,34 @@ def _all_srcs(fi, expr, pred, known=()):
     return ok
 
 
+def _argn(fi, call, name, pos):
+    """astutil.argn, looking through ``f(.., **options)`` when ``options`` is a local bound once to a dict display with
+    constant keys and used nowhere else (so nothing can have changed it): the value stored under ``name``.  A ``*`` /
+    ``**`` argument that cannot be looked through may or may not supply the parameter: analysis error."""
+    v = argn(call, name, pos)
+    if v is not None:
+        return v
+    for k in call.keywords:
+        if k.arg is not None:
+            continue
+        d = k.value
+        if isinstance(d, ast.Name) and d.id in _locals_of(fi) and d.id not in fi.params():
+            ds = assigned_value(fi.node, d.id)
+            uses = [n for n in ast.walk(fi.node) if isinstance(n, ast.Name) and n.id == d.id and isinstance(n.ctx, ast.Load)]
+            if len(ds) == 1 and ds[0][2] is None and isinstance(ds[0][1], ast.Dict) and len(uses) == 1:
+                d = ds[0][1]
+        if isinstance(d, ast.Dict) and all(isinstance(x, ast.Constant) and isinstance(x.value, str) for x in d.keys):
+            for x, val in zip(d.keys, d.values):
+                if x.value == name:
+                    return val
+            continue
+        raise AnalysisError('%s: call %s passes **%s, which is not followed (argument %s)' % (fi.qualname, short(call), short(k.value), name))
+    if any(isinstance(a, ast.Starred) for a in call.args[:(pos + 1 if pos is not None else 0)]):
+        raise AnalysisError('%s: call %s passes positional arguments with *, which is not followed (argument %s)'
+                            % (fi.qualname, short(call), name))
+    return None
+
+
 def _unbool(cs):
     """``bool(e)`` known true / false says the same about ``e`` (``flag = bool(a and b)``)."""
     out = list(cs)
@@ -223,9 +260,12 @@ def _caught_names(fi, htype, mod=None, depth=0):
         for e in htype.elts:
             out.extend(_caught_names(fi, e, mod, depth + 1) or [])
         return out
-    if isinstance(htype, ast.Name) and depth < 5 and not (mod is fi.mod and htype.id in _locals_of(fi)):
+    if isinstance(htype, ast.BinOp) and isinstance(htype.op, ast.Add) and depth < 8:
+        # ``(ValueError,) + _IO_ERRORS``: tuple concatenation catches what either operand names
+        return (_caught_names(fi, htype.left, mod, depth + 1) or []) + (_caught_names(fi, htype.right, mod, depth + 1) or [])
+    if isinstance(htype, ast.Name) and depth < 8 and not (mod is fi.mod and htype.id in _locals_of(fi)):
         kind, m, obj = fi.mod.repo.resolve(mod, htype.id)
-        if kind == 'value' and len(obj) == 1 and isinstance(obj[0], (ast.Tuple, ast.Attribute)):
+        if kind == 'value' and len(obj) == 1 and isinstance(obj[0], (ast.Tuple, ast.Attribute, ast.BinOp)):
             return _caught_names(fi, obj[0], m, depth + 1)
         if kind == 'unknown' and isinstance(obj, str):
             return [obj]
@@ -428,7 +468,8 @@ def _group(rep, fn, *args):
 
 def run(rep):
     rep.decide('R14.a sanitise-then-use in find_file; R14.b non-breaking 403/404 discipline; R14.c filesystem calls '
-               'under OSError handlers; R14.d 304 / success header assignments; R14.e route shape')
+               'under OSError handlers; R14.d 304 / success header assignments; R14.e route shape; R14.f the served '
+               'modification time is constructed in UTC, from the file\'s own mtime, in whole seconds')
     rep.decline('byte equality of served bodies, MIME guessing, Last-Modified formatting (values)')
     rep.assume('os.path.normpath leaves ".." components only as a prefix of a relative path (POSIX semantics)')
     rep.assume('os.path.isfile never raises')
@@ -437,6 +478,7 @@ def run(rep):
     _group(rep, _r14c)
     _group(rep, _r14d)
     _group(rep, _r14e)
+    _group(rep, _r14f)
 
 
 def _find_file_call(st):
@@ -559,7 +601,7 @@ def _r14a(rep):
         for fi in m.functions.values():
             for c in walk_body(fi.node):
                 if isinstance(c, ast.Call) and call_tail(c) == 'find_file':
-                    lr = argn(c, 'limit_root', 2)
+                    lr = _argn(fi, c, 'limit_root', 2)
                     ok = lr is None or (isinstance(lr, ast.Constant) and lr.value is True)
                     rep.check('R14.a', fkey(fi, 'find_file call'), ok, 'caller keeps limit_root on' if ok else
                               'caller passes limit_root=%s' % short(lr), m, c)
@@ -749,8 +791,18 @@ def _r14e(rep):
     rep.check('R14.e', fkey(gfr, "'/'.join(path)"), bool(joined), "multi-segment path values are joined with '/'" if joined else
               "path segments are not joined with '/'", st, gfr.node)
     # what is looked up is the bound ``path`` value: the parameter itself or its segments joined with '/'
+    def path_value(e):
+        # the parameter, or '/'.join(<a name that only ever holds the parameter or this very join of itself>)
+        if _is_param(e, 'path'):
+            return True
+        if not (slash_join(e) and len(e.args) == 1 and not e.keywords and isinstance(e.args[0], ast.Name)):
+            return False
+        a = e.args[0]
+        return all(isinstance(x, ast.expr) and (_is_param(x, 'path') or (slash_join(x) and len(x.args) == 1 and not x.keywords
+                                                                         and norm(x.args[0]) == a.id))
+                   for x in _srcs(gfr, a))
     ok = 'path' in gfr.params() and len(ffc.args) >= 2 and norm(ffc.args[0]) == 'self.search_paths' and \
-        _all_srcs(gfr, ffc.args[1], lambda e: _is_param(e, 'path') or (slash_join(e) and len(e.args) == 1 and norm(e.args[0]) == 'path'))
+        _all_srcs(gfr, ffc.args[1], path_value)
     rep.check('R14.e', fkey(gfr, 'find_file args'), ok, 'find_file(self.search_paths, path)' if ok else
               'find_file is not called with (self.search_paths, path)', st, ffc)
     # the found path is what is served
@@ -759,6 +811,739 @@ def _r14e(rep):
     rep.check('R14.e', fkey(gfr, 'serves found path'), ok, 'the path returned by find_file is the one served' if ok else
               'build_file_response is not given the path found by find_file', st, bc[0] if bc else gfr.node)
     ok = bool(bc) and 'request' in gfr.params() and not assigned_value(gfr.node, 'request') and \
-        all(_all_srcs(gfr, argn(c, 'cached_modify_time', 2), lambda e: norm(e) == 'request.if_modified_since') for c in bc)
+        all(_all_srcs(gfr, _argn(gfr, c, 'cached_modify_time', 2), lambda e: norm(e) == 'request.if_modified_since') for c in bc)
     rep.check('R14.e', fkey(gfr, 'if_modified_since'), ok, 'conditional requests use request.if_modified_since' if ok else
               'cached_modify_time is not request.if_modified_since', st, bc[0] if bc else gfr.node)
+
+
+# ---------------------------------------------------------------------------------------------- R14.f: time base
+# The value sent as Last-Modified and compared with If-Modified-Since is followed from its use back to where it is
+# constructed (reaching definitions of locals, calls into functions of the package, module-level constants) and
+# evaluated over a small abstract domain: *what kind of time value* an expression denotes, never which instant.
+#   epoch   seconds since the epoch (time-zone free), of which file, whole seconds or not
+#   struct  a struct_time broken down in UTC / in local time
+#   dt      a datetime: naive holding UTC wall-clock time, naive holding local wall-clock time, aware
+#   origin / delta   datetime(1970, 1, 1) and timedelta(seconds=<epoch>)
+#   tz      a tzinfo object (UTC or some other zone)
+#   bad     a definite defect (a local-time reading of a UTC value or vice versa, the clock, another file time)
+#   unknown anything else (not followed => analysis error)
+_UTC_TZ_NAMES = {'datetime.timezone.utc', 'datetime.UTC', 'pytz.utc', 'pytz.UTC', 'dateutil.tz.UTC'}
+_UTC_TZ_CALLS = {'dateutil.tz.tzutc'}
+_CLOCKS = {'time.time', 'time.time_ns', 'datetime.datetime.now', 'datetime.datetime.utcnow', 'datetime.datetime.today',
+           'datetime.date.today', 'time.monotonic'}
+_OTHER_FILE_TIMES = {'os.path.getctime': 'inode-change', 'os.path.getatime': 'last-access'}
+_STAT_CALLS = {'os.stat', 'os.lstat'}
+_DT_CLASSES = {'datetime.datetime'}
+
+
+class _V(object):
+    """One abstract time value (see above)."""
+    __slots__ = ('kind', 'base', 'of', 'whole', 'why', 'node', 'mod')
+
+    def __init__(self, kind, base=None, of=(), whole=None, why='', node=None, mod=None):
+        self.kind, self.base, self.of, self.whole, self.why, self.node, self.mod = kind, base, tuple(of), whole, why, node, mod
+
+    def but(self, **kw):
+        v = _V(self.kind, self.base, self.of, self.whole, self.why, self.node, self.mod)
+        for k, x in kw.items():
+            setattr(v, k, x)
+        return v
+
+    def sig(self):
+        return (self.kind, self.base, self.of, self.whole, self.why, id(self.node))
+
+
+class _Ctx(object):
+    """Where an expression is evaluated: a module, optionally a function of it, and what the function's parameters
+    are bound to ({name: (expr, ctx) | None}; None for the whole dict = parameters stay symbolic)."""
+    def __init__(self, mod, fi=None, args=None, depth=0):
+        self.mod, self.fi, self.args, self.depth = mod, fi, args, depth
+
+
+def _local_imports(fi):
+    c = getattr(fi, '_c14_limports', None)
+    if c is None:
+        c = {}
+        for s in stmts_of(fi.node):
+            if isinstance(s, ast.Import):
+                for a in s.names:
+                    c[a.asname or a.name.split('.')[0]] = a.name if a.asname else a.name.split('.')[0]
+            elif isinstance(s, ast.ImportFrom) and not s.level and s.module:
+                for a in s.names:
+                    c[a.asname or a.name] = s.module + '.' + a.name
+        fi._c14_limports = c
+    return c
+
+
+def _reaching(fi, name_node):
+    """The bindings of a local that can reach one use of it: [(stmt, value, idx)] as astutil.assigned_value gives them,
+    plus the string 'initial' when the value the name has on entry (a parameter's argument) can reach the use.  A
+    binding reaches the use when some CFG path leads from it to the using statement without passing another binding
+    of the same name."""
+    name = name_node.id
+    defs = assigned_value(fi.node, name)
+    cfg = cfg_of(fi)
+    use = stmt_of(fi.mod, name_node)
+    un = set(cfg.nodes_of(use)) if use is not None else set()
+    if not un:
+        return list(defs) + ['initial']
+    probe = ast.Name(id=name, ctx=ast.Load())
+    kill = set(nd.id for nd in cfg.nodes if cfg._kills(probe, [nd.id]))
+    for st, val, idx in defs:
+        if isinstance(st, ast.ExceptHandler):
+            kill.update(cfg.handler_nodes(st))
+    avoid = kill - un
+    out = []
+    for d in defs:
+        st = d[0]
+        dn = set(cfg.handler_nodes(st)) if isinstance(st, ast.ExceptHandler) else set(cfg.nodes_of(st)) & kill
+        if not dn or un & cfg.reach([m for x in dn for m in cfg.succ[x]], avoid=avoid):
+            out.append(d)
+    if un & cfg.reach([cfg.entry], avoid=avoid):
+        out.append('initial')
+    return out
+
+
+def _qual(ctx, e, depth=0):
+    """Dotted name of the library object an expression denotes ('datetime.datetime.utcfromtimestamp', 'os.path.getmtime',
+    'datetime.timezone.utc', a builtin's own name): through module- and function-level imports (with ``as``),
+    module-level aliases and locals bound once to such a name.  None when the expression is not such a name."""
+    if depth > 8:
+        return None
+    if isinstance(e, ast.Attribute):
+        q = _qual(ctx, e.value, depth + 1)
+        return q + '.' + e.attr if q else None
+    if not isinstance(e, ast.Name):
+        return None
+    fi, mod = ctx.fi, ctx.mod
+    if fi is not None:
+        if e.id in _locals_of(fi):
+            if e.id in fi.params():
+                return None
+            ds = assigned_value(fi.node, e.id)
+            if len(ds) == 1 and ds[0][2] is None and isinstance(ds[0][1], (ast.Name, ast.Attribute)):
+                return _qual(ctx, ds[0][1], depth + 1)
+            return None
+        li = _local_imports(fi)
+        if e.id in li:
+            return li[e.id]
+    if e.id in mod.functions or e.id in mod.classes:
+        return None
+    if e.id in mod.imports:
+        modname, attr = mod.imports[e.id]
+        return modname + ('.' + attr if attr else '')
+    if e.id in mod.assigns:
+        vals = mod.assigns[e.id]
+        if len(vals) == 1 and isinstance(vals[0], (ast.Name, ast.Attribute)):
+            return _qual(_Ctx(mod), vals[0], depth + 1)
+        return None
+    return e.id
+
+
+def _callee(ctx, call):
+    """The function of the analysed package a call invokes (plain name, single-assignment local alias of one,
+    self/cls method): (FuncInfo, number of implicit leading parameters), else (None, 0)."""
+    repo = ctx.mod.repo
+    f = call.func
+    fi = ctx.fi
+    for _ in range(4):
+        if isinstance(f, ast.Name) and fi is not None and f.id in _locals_of(fi) and f.id not in fi.params():
+            ds = assigned_value(fi.node, f.id)
+            if len(ds) == 1 and ds[0][2] is None and isinstance(ds[0][1], (ast.Name, ast.Attribute)):
+                f = ds[0][1]
+                continue
+        break
+    try:
+        if isinstance(f, ast.Name) and not (fi is not None and f.id in _locals_of(fi)):
+            kind, m, obj = repo.resolve(ctx.mod, f.id)
+            if kind == 'func' and m is not None and not m.external:
+                return obj, 0
+        if isinstance(f, ast.Attribute) and isinstance(f.value, ast.Name) and f.value.id in ('self', 'cls') and fi is not None \
+                and fi.cls is not None:
+            meth = repo.find_method(fi.cls, f.attr)
+            if meth is not None and not meth.mod.external:
+                static = any(isinstance(d, ast.Name) and d.id == 'staticmethod' for d in meth.node.decorator_list)
+                return meth, 0 if static else 1
+    except AnalysisError:
+        raise
+    except Exception:
+        return None, 0
+    return None, 0
+
+
+def _const_of(ctx, e, depth=0):
+    """Constant an expression folds to (literal, module-level constant, a parameter bound to one): (True, value) or
+    (False, None)."""
+    if e is None or depth > 6:
+        return False, None
+    if isinstance(e, ast.Constant):
+        return True, e.value
+    if isinstance(e, ast.UnaryOp) and isinstance(e.op, ast.USub):
+        ok, v = _const_of(ctx, e.operand, depth + 1)
+        return (True, -v) if ok and isinstance(v, (int, float)) else (False, None)
+    if isinstance(e, ast.Name) and ctx.fi is not None and e.id in _locals_of(ctx.fi):
+        rd = _reaching(ctx.fi, e)
+        if rd == ['initial'] and e.id in ctx.fi.params() and ctx.args is not None and ctx.args.get(e.id) is not None:
+            ex, c2 = ctx.args[e.id]
+            return _const_of(c2, ex, depth + 1)
+        if len(rd) == 1 and rd[0] != 'initial' and rd[0][2] is None and isinstance(rd[0][1], ast.expr):
+            return _const_of(ctx, rd[0][1], depth + 1)
+        return False, None
+    if isinstance(e, (ast.Name, ast.Attribute)):
+        marker = object()
+        v = ctx.mod.repo.try_fold(e, ctx.mod, marker)
+        if v is not marker and isinstance(v, (int, float, str, type(None), bool)):
+            return True, v
+    return False, None
+
+
+def _uniq(vals):
+    out, seen = [], set()
+    for v in vals:
+        if v.sig() not in seen:
+            seen.add(v.sig())
+            out.append(v)
+    return out
+
+
+def _unknown(ctx, e, why):
+    return _V('unknown', why=why, node=e, mod=ctx.mod)
+
+
+def _bad(ctx, e, why, of=()):
+    return _V('bad', why=why, node=e, mod=ctx.mod, of=of)
+
+
+def _whose(ctx, e, stack):
+    """Which file a path expression names: the parameters it can come from (followed through calls), else its text."""
+    out = []
+    for v in _tv(ctx, e, stack):
+        if v.kind == 'sym':
+            out.append(('param', v.base, v.why))
+        else:
+            out.append(('other', short(e)))
+    return tuple(sorted(set(out)))
+
+
+def _is_utc_tz(ctx, e, stack):
+    """True: the expression is the UTC tzinfo; False: some other tzinfo / None is handled by the callers; None: unknown."""
+    vs = _tv(ctx, e, stack)
+    if vs and all(v.kind == 'tz' for v in vs):
+        if all(v.base == 'utc' for v in vs):
+            return True
+        return False
+    return None
+
+
+def _tv(ctx, e, stack=()):
+    """Abstract time value(s) an expression can denote: a list of _V (several when several definitions reach)."""
+    if len(stack) > 40 or ctx.depth > 6:
+        return [_unknown(ctx, e, 'too deep to follow')]
+    key = (id(e), id(ctx.fi), ctx.depth)
+    if key in stack:
+        return []          # a definition that feeds itself (loop / re-binding): contributes nothing new
+    stack = stack + (key,)
+    if isinstance(e, ast.IfExp):
+        return _uniq(_tv(ctx, e.body, stack) + _tv(ctx, e.orelse, stack))
+    if isinstance(e, ast.BoolOp):
+        return _uniq([v for x in e.values for v in _tv(ctx, x, stack)])
+    if isinstance(e, ast.NamedExpr):
+        return _tv(ctx, e.value, stack)
+    if isinstance(e, ast.Name):
+        return _tv_name(ctx, e, stack)
+    if isinstance(e, ast.Attribute):
+        q = _qual(ctx, e)
+        if q in _UTC_TZ_NAMES:
+            return [_V('tz', 'utc', node=e, mod=ctx.mod)]
+        if q is None and e.attr.startswith('st_') and e.attr.endswith('time'):
+            out = []
+            for v in _tv(ctx, e.value, stack):
+                if v.kind != 'statres':
+                    out.append(v if v.kind in ('bad', 'unknown') else _unknown(ctx, e, '%s of something that is not a stat result' % e.attr))
+                elif e.attr == 'st_mtime':
+                    out.append(_V('epoch', of=v.of, whole=False, node=e, mod=ctx.mod))
+                else:
+                    out.append(_bad(ctx, e, '%s is not the modification time' % e.attr, v.of))
+            return _uniq(out)
+        return [_unknown(ctx, e, 'attribute %s is not followed' % short(e))]
+    if isinstance(e, ast.Subscript):
+        return _tv_subscript(ctx, e, stack)
+    if isinstance(e, ast.BinOp):
+        return _tv_binop(ctx, e, stack)
+    if isinstance(e, ast.Call):
+        return _tv_call(ctx, e, stack)
+    if isinstance(e, ast.Constant) and e.value is None:
+        return [_V('none', node=e, mod=ctx.mod)]
+    return [_unknown(ctx, e, 'expression %s is not a time value the rule knows' % short(e))]
+
+
+def _tv_name(ctx, e, stack):
+    fi = ctx.fi
+    if fi is not None and e.id in _locals_of(fi):
+        out = []
+        for d in _reaching(fi, e):
+            if d == 'initial':
+                if e.id not in fi.params():
+                    continue        # unbound on that path
+                if ctx.args is None:
+                    out.append(_V('sym', fi.qualname, why=e.id, node=e, mod=ctx.mod))
+                elif ctx.args.get(e.id) is None:
+                    out.append(_unknown(ctx, e, 'argument for parameter %s of %s not identified' % (e.id, fi.qualname)))
+                else:
+                    ex, c2 = ctx.args[e.id]
+                    out.extend(_tv(c2, ex, stack))
+                continue
+            st, val, idx = d
+            if isinstance(idx, int) and isinstance(st, ast.Assign):
+                tgt = [t for t in st.targets if isinstance(t, (ast.Tuple, ast.List))
+                       and any(isinstance(x, ast.Name) and x.id == e.id for x in t.elts)]
+                if tgt and not any(isinstance(x, ast.Starred) for x in tgt[0].elts):
+                    if isinstance(val, (ast.Tuple, ast.List)) and len(val.elts) == len(tgt[0].elts) and \
+                            not any(isinstance(x, ast.Starred) for x in val.elts):
+                        val, idx = val.elts[idx], None
+                    else:
+                        val, idx = ast.copy_location(ast.Subscript(value=val, slice=ast.Constant(value=idx), ctx=ast.Load()), val), None
+            if idx is not None or not isinstance(val, ast.expr):
+                out.append(_unknown(ctx, st if isinstance(st, ast.AST) else e, '%s is bound by a statement that is not followed' % e.id))
+            else:
+                out.extend(_tv(ctx, val, stack))
+        return _uniq(out)
+    q = _qual(ctx, e)
+    if q in _UTC_TZ_NAMES:
+        return [_V('tz', 'utc', node=e, mod=ctx.mod)]
+    if e.id in ctx.mod.assigns and not (fi is not None and e.id in _local_imports(fi)):
+        vals = ctx.mod.assigns[e.id]
+        if len(vals) == 1 and isinstance(vals[0], ast.expr) and not ctx.mod.augassigns.get(e.id):
+            return _tv(_Ctx(ctx.mod, None, None, ctx.depth + 1), vals[0], stack)
+        return [_unknown(ctx, e, 'module-level name %s has several bindings' % e.id)]
+    if e.id in ctx.mod.imports and q is not None:
+        modname, attr = ctx.mod.imports[e.id]
+        m = ctx.mod.repo.try_mod(modname) if attr and ctx.mod.repo.is_internal(modname) else None
+        if m is not None and attr in m.assigns and len(m.assigns[attr]) == 1 and isinstance(m.assigns[attr][0], ast.expr):
+            return _tv(_Ctx(m, None, None, ctx.depth + 1), m.assigns[attr][0], stack)
+    return [_unknown(ctx, e, 'name %s is not a time value the rule knows' % e.id)]
+
+
+def _tv_subscript(ctx, e, stack):
+    sl = e.slice
+    ok, idx = _const_of(ctx, sl)
+    if isinstance(e.value, (ast.Tuple, ast.List)) and ok and isinstance(idx, int) and -len(e.value.elts) <= idx < len(e.value.elts) \
+            and not any(isinstance(x, ast.Starred) for x in e.value.elts):
+        return _tv(ctx, e.value.elts[idx], stack)
+    if isinstance(e.value, ast.Call) and ok and isinstance(idx, int):
+        callee, skip = _callee(ctx, e.value)
+        if callee is not None:
+            return _follow_call(ctx, e.value, callee, skip, stack, element=idx)
+    base = _tv(ctx, e.value, stack)
+    out = []
+    for v in base:
+        if v.kind == 'statres':
+            is_mtime = (ok and idx == 8) or _qual(ctx, sl) == 'stat.ST_MTIME'
+            if is_mtime:
+                out.append(_V('epoch', of=v.of, whole=True, node=e, mod=ctx.mod))
+            elif ok or _qual(ctx, sl):
+                out.append(_bad(ctx, e, 'field %s of the stat result is not the modification time' % short(sl), v.of))
+            else:
+                out.append(_unknown(ctx, e, 'stat field %s not identified' % short(sl)))
+        elif v.kind in ('bad', 'unknown'):
+            out.append(v)
+        else:
+            out.append(_unknown(ctx, e, 'subscript %s is not followed' % short(e)))
+    return _uniq(out)
+
+
+def _tv_binop(ctx, e, stack):
+    ls, rs = _tv(ctx, e.left, stack), _tv(ctx, e.right, stack)
+    out = []
+    if isinstance(e.op, ast.Add):
+        for a in ls:
+            for b in rs:
+                if a.kind == 'delta' and b.kind == 'origin':
+                    a, b = b, a
+                if a.kind == 'origin' and b.kind == 'delta':
+                    out.append(_V('dt', 'aware-utc' if a.base == 'aware' else 'naive-utc', of=b.of, whole=b.whole, node=e, mod=ctx.mod))
+                elif a.kind == 'bad' or b.kind == 'bad':
+                    out.append(a if a.kind == 'bad' else b)
+                else:
+                    out.append(_unknown(ctx, e, 'arithmetic %s on time values is not followed' % short(e)))
+        return _uniq(out)
+    if isinstance(e.op, ast.FloorDiv):
+        ok, d = _const_of(ctx, e.right)
+        for a in ls:
+            if a.kind == 'epoch' and ok and d == 1:
+                out.append(a.but(whole=True, node=e))
+            elif a.kind == 'bad':
+                out.append(a)
+            else:
+                out.append(_unknown(ctx, e, 'arithmetic %s on time values is not followed' % short(e)))
+        return _uniq(out)
+    bads = [v for v in ls + rs if v.kind == 'bad']
+    return _uniq(bads) or [_unknown(ctx, e, 'arithmetic %s on time values is not followed' % short(e))]
+
+
+def _plain_args(call):
+    return not any(isinstance(a, ast.Starred) for a in call.args) and not any(k.arg is None for k in call.keywords)
+
+
+def _map(vals, fn, ctx, e):
+    """Apply ``fn`` to every value; defects and unknowns pass through unchanged; fn returning None = not applicable."""
+    out = []
+    for v in vals:
+        if v.kind in ('bad', 'unknown'):
+            out.append(v)
+            continue
+        r = fn(v)
+        if r is None:
+            r = _unknown(ctx, e, '%s applied to a value of kind %s is not followed' % (short(e.func) if isinstance(e, ast.Call) else short(e), v.kind))
+        out.extend(r if isinstance(r, list) else [r])
+    return _uniq(out)
+
+
+def _tv_call(ctx, e, stack):
+    mod = ctx.mod
+    q = _qual(ctx, e.func)
+    plain = _plain_args(e)
+    a0 = e.args[0] if e.args and not isinstance(e.args[0], ast.Starred) else None
+
+    def arg0():
+        return _tv(ctx, a0, stack) if a0 is not None else []
+
+    callee, skip = _callee(ctx, e)
+    if callee is not None:
+        return _follow_call(ctx, e, callee, skip, stack)
+    if q in _CLOCKS:
+        return [_bad(ctx, e, '%s() reads the clock, not the file' % q)]
+    if q in _OTHER_FILE_TIMES and plain and a0 is not None:
+        return [_bad(ctx, e, '%s is the %s time, not the modification time' % (q, _OTHER_FILE_TIMES[q]), _whose(ctx, a0, stack))]
+    if q == 'os.path.getmtime' and plain and a0 is not None:
+        return [_V('epoch', of=_whose(ctx, a0, stack), whole=False, node=e, mod=mod)]
+    if q in _STAT_CALLS and plain and a0 is not None:
+        return [_V('statres', of=_whose(ctx, a0, stack), node=e, mod=mod)]
+    if q == 'os.fstat' and plain and a0 is not None:
+        return [_V('statres', of=(('other', short(a0)),), node=e, mod=mod)]
+    if q is None and isinstance(e.func, ast.Attribute) and e.func.attr in ('stat', 'lstat') and not e.args and not e.keywords and \
+            isinstance(e.func.value, ast.Call) and _qual(ctx, e.func.value.func) in ('pathlib.Path', 'pathlib.PurePath') and \
+            len(e.func.value.args) == 1 and _plain_args(e.func.value) and not e.func.value.keywords:
+        return [_V('statres', of=_whose(ctx, e.func.value.args[0], stack), node=e, mod=mod)]
+    if q in _UTC_TZ_CALLS and not e.args and not e.keywords:
+        return [_V('tz', 'utc', node=e, mod=mod)]
+    if q in ('zoneinfo.ZoneInfo', 'pytz.timezone', 'dateutil.tz.gettz') and plain and len(e.args) == 1:
+        ok, name = _const_of(ctx, e.args[0])
+        if ok and isinstance(name, str):
+            return [_V('tz', 'utc' if name.upper() in ('UTC', 'ETC/UTC', 'GMT', 'ETC/GMT', 'Z') else 'other', node=e, mod=mod)]
+        return [_unknown(ctx, e, 'time zone %s not identified' % short(e))]
+    # numeric wrappers keep an epoch value an epoch value
+    if q in ('round', 'int', 'float', 'math.floor', 'math.ceil', 'math.trunc') and plain and a0 is not None:
+        whole = True
+        if q == 'float':
+            whole = None
+        elif q == 'round':
+            nd = argn(e, 'ndigits', 1)
+            if nd is not None:
+                ok, n = _const_of(ctx, nd)
+                whole = (True if (n is None or (isinstance(n, int) and n <= 0)) else None) if ok else 'unknown'
+
+        def num(v):
+            if v.kind != 'epoch':
+                return None
+            if whole == 'unknown':
+                return v.but(whole=True if v.whole else None, node=e)
+            return v.but(whole=True if (whole or v.whole) else v.whole, node=e)
+        return _map(arg0(), num, ctx, e)
+    if q == 'time.gmtime' or q == 'time.localtime':
+        if a0 is None and not e.keywords:
+            return [_bad(ctx, e, '%s() without an argument reads the clock, not the file' % q)]
+        base = 'utc' if q == 'time.gmtime' else 'local'
+        return _map(arg0(), lambda v: _V('struct', base, of=v.of, whole=True, node=e, mod=mod) if v.kind == 'epoch' else None, ctx, e)
+    if q == 'time.mktime' and plain and a0 is not None:
+        return _map(arg0(), lambda v: None if v.kind != 'struct' else
+                    (_V('epoch', of=v.of, whole=True, node=e, mod=mod) if v.base == 'local' else
+                     _bad(ctx, e, 'time.mktime() reads a UTC struct_time as local time', v.of)), ctx, e)
+    if q == 'calendar.timegm' and plain and a0 is not None:
+        return _map(arg0(), lambda v: None if v.kind != 'struct' else
+                    (_V('epoch', of=v.of, whole=True, node=e, mod=mod) if v.base == 'utc' else
+                     _bad(ctx, e, 'calendar.timegm() reads a local struct_time as UTC', v.of)), ctx, e)
+    if q == 'datetime.datetime.utcfromtimestamp' and plain and a0 is not None:
+        return _map(arg0(), lambda v: _V('dt', 'naive-utc', of=v.of, whole=v.whole, node=e, mod=mod) if v.kind == 'epoch' else None, ctx, e)
+    if q in ('datetime.datetime.fromtimestamp', 'datetime.date.fromtimestamp') and plain and a0 is not None:
+        tz = argn(e, 'tz', 1)
+        if tz is not None and not (isinstance(tz, ast.Constant) and tz.value is None):
+            tzv = _tv(ctx, tz, stack)
+            if tzv and all(v.kind == 'none' for v in tzv):
+                tz = None
+        if tz is None or (isinstance(tz, ast.Constant) and tz.value is None) or q.startswith('datetime.date.'):
+            base = 'naive-local'
+        else:
+            u = _is_utc_tz(ctx, tz, stack)
+            if u is None:
+                return [_unknown(ctx, e, 'time zone argument %s not identified' % short(tz))]
+            base = 'aware-utc' if u else 'aware'
+        return _map(arg0(), lambda v: _V('dt', base, of=v.of, whole=v.whole, node=e, mod=mod) if v.kind == 'epoch' else None, ctx, e)
+    if q in _DT_CLASSES:
+        return _tv_datetime_ctor(ctx, e, stack)
+    if q == 'datetime.timedelta' and plain:
+        secs = argn(e, 'seconds', 1)
+        others = [k.arg for k in e.keywords if k.arg != 'seconds']
+        zero_days = len(e.args) == 0 or (len(e.args) <= 2 and _const_of(ctx, e.args[0]) == (True, 0))
+        if secs is not None and not others and zero_days and len(e.args) <= 2:
+            return _map(_tv(ctx, secs, stack), lambda v: _V('delta', of=v.of, whole=v.whole, node=e, mod=mod) if v.kind == 'epoch' else None, ctx, e)
+        return [_unknown(ctx, e, 'timedelta %s is not followed' % short(e))]
+    if q is None and isinstance(e.func, ast.Attribute):
+        return _tv_method(ctx, e, stack)
+    return [_unknown(ctx, e, 'call %s is not followed' % short(e))]
+
+
+def _tv_datetime_ctor(ctx, e, stack):
+    mod = ctx.mod
+    tzk = kwarg(e, 'tzinfo')
+    other_kw = [k.arg for k in e.keywords if k.arg != 'tzinfo']
+    if tzk is None or (isinstance(tzk, ast.Constant) and tzk.value is None):
+        utc = None
+    else:
+        utc = _is_utc_tz(ctx, tzk, stack)
+        if utc is None:
+            return [_unknown(ctx, e, 'time zone argument %s not identified' % short(tzk))]
+    # datetime(*<struct_time>[:6])
+    if len(e.args) == 1 and isinstance(e.args[0], ast.Starred) and not other_kw:
+        s = e.args[0].value
+        if isinstance(s, ast.Subscript) and isinstance(s.slice, ast.Slice) and s.slice.lower is None and s.slice.step is None and \
+                _const_of(ctx, s.slice.upper)[1] in (3, 4, 5, 6):
+            def mk(v):
+                if v.kind != 'struct':
+                    return None
+                if utc is None:
+                    return _V('dt', 'naive-' + v.base, of=v.of, whole=True, node=e, mod=mod)
+                if utc and v.base == 'utc':
+                    return _V('dt', 'aware-utc', of=v.of, whole=True, node=e, mod=mod)
+                return _bad(ctx, e, 'a %s struct_time is labelled with a %s tzinfo' % (v.base, 'UTC' if utc else 'non-UTC'), v.of)
+            return _map(_tv(ctx, s.value, stack), mk, ctx, e)
+        return [_unknown(ctx, e, 'datetime(%s) is not followed' % short(e.args[0]))]
+    # datetime(1970, 1, 1[, 0, 0, 0]): the epoch origin
+    if _plain_args(e) and 3 <= len(e.args) <= 7 and not other_kw:
+        cs = [_const_of(ctx, a) for a in e.args]
+        if all(ok for ok, v in cs) and [v for ok, v in cs][:3] == [1970, 1, 1] and all(v == 0 for ok, v in cs[3:]):
+            if utc is False:
+                return [_unknown(ctx, e, 'epoch origin in a non-UTC zone')]
+            return [_V('origin', 'aware' if utc else 'naive', node=e, mod=mod)]
+    return [_unknown(ctx, e, 'datetime constructor %s is not followed' % short(e))]
+
+
+def _tv_method(ctx, e, stack):
+    """A method of a datetime / struct value: replace, astimezone, timetuple, utctimetuple, timestamp."""
+    mod = ctx.mod
+    m = e.func.attr
+    recv = _tv(ctx, e.func.value, stack)
+    if not recv or not any(v.kind in ('dt', 'bad') for v in recv):
+        return [_unknown(ctx, e, 'call %s is not followed' % short(e))]
+    if not _plain_args(e):
+        return [_unknown(ctx, e, 'call %s with * / ** arguments is not followed' % short(e))]
+    if m == 'replace':
+        kws = dict((k.arg, k.value) for k in e.keywords)
+        if e.args or set(kws) - {'tzinfo', 'microsecond', 'fold'}:
+            return [_unknown(ctx, e, '%s changes date / time fields' % short(e))]
+        us = kws.get('microsecond')
+        us_zero = us is not None and _const_of(ctx, us) == (True, 0)
+        if us is not None and not us_zero:
+            return [_unknown(ctx, e, '%s sets a sub-second part' % short(e))]
+        tz = kws.get('tzinfo')
+        to_none = False
+        if tz is not None:
+            tzv = _tv(ctx, tz, stack)
+            to_none = bool(tzv) and all(v.kind == 'none' for v in tzv)
+        utc = None if (tz is None or to_none) else _is_utc_tz(ctx, tz, stack)
+
+        def rep_(v):
+            if v.kind != 'dt':
+                return None
+            w = True if us_zero else v.whole
+            if tz is None:
+                return v.but(whole=w, node=e)
+            if to_none:
+                if v.base == 'aware':
+                    return _unknown(ctx, e, 'wall-clock time of a zone that is not identified')
+                return v.but(base={'aware-utc': 'naive-utc'}.get(v.base, v.base), whole=w, node=e)
+            if utc is None:
+                return _unknown(ctx, e, 'time zone argument %s not identified' % short(tz))
+            if v.base == 'naive-utc' and utc:
+                return v.but(base='aware-utc', whole=w, node=e)
+            if v.base == 'naive-local' and utc:
+                return _bad(ctx, e, 'local wall-clock time is labelled UTC', v.of)
+            if v.base == 'naive-utc' and not utc:
+                return _bad(ctx, e, 'UTC wall-clock time is labelled with a non-UTC zone', v.of)
+            return _unknown(ctx, e, '%s relabels a datetime' % short(e))
+        return _map(recv, rep_, ctx, e)
+    if m == 'astimezone':
+        tz = argn(e, 'tz', 0)
+        utc = None
+        if tz is not None and not (isinstance(tz, ast.Constant) and tz.value is None):
+            utc = _is_utc_tz(ctx, tz, stack)
+            if utc is None:
+                return [_unknown(ctx, e, 'time zone argument %s not identified' % short(tz))]
+
+        def astz(v):
+            if v.kind != 'dt':
+                return None
+            if v.base == 'naive-utc':
+                return _bad(ctx, e, 'astimezone() reads a naive UTC value as local time', v.of)
+            return v.but(base='aware-utc' if utc else 'aware', node=e)
+        return _map(recv, astz, ctx, e)
+    if m in ('timetuple', 'utctimetuple') and not e.args and not e.keywords:
+        def tt(v):
+            if v.kind != 'dt':
+                return None
+            if v.base in ('naive-utc', 'naive-local'):
+                return _V('struct', v.base[6:], of=v.of, whole=True, node=e, mod=mod)
+            if v.base == 'aware-utc' or m == 'utctimetuple':
+                return _V('struct', 'utc', of=v.of, whole=True, node=e, mod=mod)
+            return _unknown(ctx, e, 'timetuple() of a datetime in a zone that is not identified')
+        return _map(recv, tt, ctx, e)
+    if m == 'timestamp' and not e.args and not e.keywords:
+        def ts(v):
+            if v.kind != 'dt':
+                return None
+            if v.base == 'naive-utc':
+                return _bad(ctx, e, 'timestamp() reads a naive UTC value as local time', v.of)
+            return _V('epoch', of=v.of, whole=v.whole, node=e, mod=mod)
+        return _map(recv, ts, ctx, e)
+    return _map(recv, lambda v: None, ctx, e)
+
+
+def _follow_call(ctx, call, callee, skip, stack, element=None):
+    """Values a call into a function of the package returns: its return expressions, evaluated in the callee with the
+    parameters bound to the arguments of this call (defaults where none is passed)."""
+    node = callee.node
+    if not isinstance(node, ast.FunctionDef):
+        return [_unknown(ctx, call, '%s is not a plain function' % callee.qualname)]
+    if any(not (isinstance(d, ast.Name) and d.id in ('staticmethod', 'classmethod')) for d in node.decorator_list):
+        return [_unknown(ctx, call, '%s is decorated (what the call returns is decided by the decorator)' % callee.qualname)]
+    if any(isinstance(n, (ast.Yield, ast.YieldFrom)) for n in walk_body(node)):
+        return [_unknown(ctx, call, '%s is a generator' % callee.qualname)]
+    a = node.args
+    pos = [x.arg for x in a.posonlyargs + a.args]
+    binding = {}
+    cctx_mod = _Ctx(callee.mod, None, None, ctx.depth + 1)
+    dflt = dict(zip(pos[len(pos) - len(a.defaults):], a.defaults))
+    for x, d in zip(a.kwonlyargs, a.kw_defaults):
+        if d is not None:
+            dflt[x.arg] = d
+    for p in callee.params():
+        binding[p] = (dflt[p], cctx_mod) if p in dflt else None
+    if _plain_args(call):
+        for i, arg in enumerate(call.args):
+            if i + skip < len(pos):
+                binding[pos[i + skip]] = (arg, ctx)
+        for k in call.keywords:
+            if k.arg in binding:
+                binding[k.arg] = (k.value, ctx)
+    else:
+        binding = dict((p, None) for p in binding)
+    inner = _Ctx(callee.mod, callee, binding, ctx.depth + 1)
+    rets = returns_of(callee)
+    out = []
+    for r in rets:
+        v = r.value
+        if v is None:
+            out.append(_V('none', node=r, mod=callee.mod))
+            continue
+        if element is not None:
+            v = ast.copy_location(ast.Subscript(value=v, slice=ast.Constant(value=element), ctx=ast.Load()), v)
+        out.extend(_tv(inner, v, stack))
+    if not rets:
+        out.append(_V('none', node=node, mod=callee.mod))
+    return _uniq(out)
+
+
+def _where(v):
+    ln = getattr(v.node, 'lineno', None)
+    return '%s:%s' % (getattr(v.mod, 'relpath', '?'), ln) if ln else getattr(v.mod, 'relpath', '?')
+
+
+def _r14f(rep):
+    repo = rep.repo
+    st = repo.mod(STATIC)
+    bfr = st.func('build_file_response')
+    rep.rule('R14.f', 'the time sent as Last-Modified and compared with If-Modified-Since is the served file\'s '
+             'modification time, constructed in UTC, in whole seconds')
+    rep.assume('werkzeug reads a naive datetime given to Response.last_modified as UTC and request.if_modified_since is a '
+               'naive UTC datetime (werkzeug < 2) in whole seconds')
+    path_param = bfr.params()[0]
+    uses = []
+    for s in stmts_of(bfr.node):
+        if isinstance(s, ast.Assign) and any(isinstance(t, ast.Attribute) and t.attr == 'last_modified' for t in s.targets):
+            uses.append(('Last-Modified', s.value, s))
+    for n in walk_body(bfr.node):
+        if isinstance(n, ast.Compare) and len(n.ops) == 1 and isinstance(n.ops[0], (ast.LtE, ast.Lt, ast.GtE, ast.Gt)):
+            l, r = n.left, n.comparators[0]
+            if norm(r) == 'cached_modify_time' and norm(l) != 'cached_modify_time':
+                uses.append(('304 comparison', l, n))
+            elif norm(l) == 'cached_modify_time' and norm(r) != 'cached_modify_time':
+                uses.append(('304 comparison', r, n))
+    kinds = set(u[0] for u in uses)
+    if kinds != {'Last-Modified', '304 comparison'}:
+        raise AnalysisError('build_file_response: %s not found' % ' / '.join(sorted({'Last-Modified assignment', '304 comparison'} -
+                            {k + (' assignment' if k == 'Last-Modified' else '') for k in kinds})))
+    ctx = _Ctx(st, bfr, None, 0)
+    gaps = []
+    for label in ('Last-Modified', '304 comparison'):
+        vals = []
+        at = None
+        for lab, expr, node in uses:
+            if lab == label:
+                at = at or node
+                vals.extend(_tv(ctx, expr, ()))
+        vals = _uniq(vals)
+        if not vals:
+            raise AnalysisError('build_file_response: no definition of the %s value reaches its use' % label)
+        # -- time base
+        wrong = []
+        for v in vals:
+            if v.kind == 'bad':
+                wrong.append('%s (%s)' % (v.why, _where(v)))
+            elif v.kind == 'dt' and v.base == 'naive-local':
+                wrong.append('%s builds a naive datetime in the server\'s *local* time (%s), which werkzeug reads as UTC: the value '
+                             'is off by the server\'s UTC offset' % (short(v.node), _where(v)))
+            elif v.kind == 'struct' and v.base == 'local':
+                wrong.append('%s is broken down in local time (%s)' % (short(v.node), _where(v)))
+            elif v.kind == 'none':
+                wrong.append('None reaches the %s value (%s)' % (label, _where(v)))
+        unknown = [v for v in vals if v.kind == 'unknown']
+        if label == '304 comparison':
+            unknown += [v.but(why='an aware datetime is compared with request.if_modified_since (defined only when werkzeug '
+                              'yields aware datetimes too)') for v in vals if v.kind == 'dt' and v.base in ('aware', 'aware-utc')]
+            unknown += [v.but(why='the compared value is not a datetime (%s)' % v.kind) for v in vals
+                        if v.kind in ('epoch', 'struct', 'origin', 'delta', 'tz', 'sym', 'statres')]
+        else:
+            unknown += [v.but(why='the header value is not a time (%s)' % v.kind) for v in vals
+                        if v.kind in ('origin', 'delta', 'tz', 'sym', 'statres')]
+        if wrong or not unknown:
+            rep.check('R14.f', fkey(bfr, '%s::time base' % label), not wrong,
+                      'the %s value is constructed in UTC from the file\'s timestamp' % label if not wrong else
+                      'the %s value is not the file\'s modification time in UTC: %s' % (label, '; '.join(wrong)), st, at)
+        else:
+            gaps.append('%s value: %s (%s)' % (label, unknown[0].why, _where(unknown[0])))
+        timed = [v for v in vals if v.kind in ('dt', 'epoch', 'struct')]
+        # -- whose timestamp
+        owners = set(o for v in timed for o in v.of)
+        if timed and not wrong:
+            foreign = sorted(o for o in owners if o != ('param', bfr.qualname, path_param))
+            if not foreign and owners:
+                rep.ok('R14.f', fkey(bfr, '%s::timestamp source' % label), 'the timestamp is the modification time of %s' % path_param, st, at)
+            elif any(o[0] == 'param' for o in foreign):
+                rep.fail('R14.f', fkey(bfr, '%s::timestamp source' % label), 'the timestamp is read from %s, not from the served file %s'
+                         % (', '.join(o[-1] for o in foreign if o[0] == 'param'), path_param), st, at)
+            else:
+                gaps.append('%s value: cannot tell which file\'s timestamp %s is' % (label, ', '.join(o[-1] for o in foreign) or '?'))
+        # -- whole seconds (HTTP dates carry no fraction: a fraction makes the file look newer than the date the server sent)
+        if label == '304 comparison' and timed and not wrong:
+            frac = [v for v in timed if v.whole is False]
+            undecided = [v for v in timed if v.whole is None]
+            if frac or not undecided:
+                rep.check('R14.f', fkey(bfr, '%s::whole seconds' % label), not frac,
+                          'the compared time is rounded to whole seconds' if not frac else
+                          'the compared time keeps its sub-second part (%s): a client echoing the Last-Modified it was sent is '
+                          'answered 200, not 304' % _where(frac[0]), st, at)
+            else:
+                gaps.append('304 comparison: cannot show that the compared time is in whole seconds (%s)' % _where(undecided[0]))
+    if gaps:
+        raise AnalysisError('build_file_response: ' + '; '.join(gaps))
+    rep.floor('R14.f', 5)
